@@ -53,10 +53,12 @@ class Profile:
         self.param_named_consts = False  # C09: call-site names equal to parameter names
         self.self_pointers = True
         self.includes = False
+        self.defines = {}              # C12: names given with -D (expansion-time integers)
         self.text = False
         self.edge_weight = 0.45
         self.call_weight = 3
         self.scope_weight = 1
+        self.org_weight = 2
         self.block_weight = 2
         self.min_calls = 0
         self.loop_weight = 1
@@ -171,7 +173,7 @@ class ProgGen:
         if p.consts:
             ks += ["const"] * 2
         if p.orgs and not in_macro and not in_loop:
-            ks += ["org"] * 2
+            ks += ["org"] * p.org_weight
         if (p.reloc_rom or p.reloc_ram) and not in_macro and not in_loop:
             ks += ["reloc"]
         if depth < p.max_depth:
@@ -500,6 +502,7 @@ class ProgGen:
     def program(self):
         rng = self.rng
         self.root = GS(None, "root")
+        self.root.xc.update(self.p.defines)
         head = []
         macro_plans = self.plan_macros()
         self.param_consts = []
